@@ -255,3 +255,27 @@ def run(ctx):
     for f in ("props", "gen_grammar", "lexeme"):
         ctx.check((SYM, f) in r, "C15-R3", "copy_from:carries:" + f, "copy_from reads Symbol." + f,
                   "Grammar::copy_from no longer copies Symbol.%s into the optimised grammar" % f, site=cf.where())
+    # ------------------------------------------------------------------ R5 every rule of a kept symbol is re-emitted
+    # The output grammar is rebuilt rule by rule; a rule that is not re-emitted is a lost alternative (two alternatives with
+    # the same body but different %if conditions are *different* rules).  In the loop over `sym.rules` that leads to
+    # add_rule_ext, no path returns to the iterator without having called add_rule_ext.
+    es = ctx.body(GR + "::expand_shortcuts")
+    emit = es.call_blocks(GR + "::add_rule_ext")
+    loops = []
+    for bi, t in es.calls():
+        d = t["f"].get("def", "")
+        if d.endswith("::next") and "grammar::Rule>" in (t["f"].get("full") or "") and any(x in es.reachable(bi) and bi in es.reachable(x) for x in emit):
+            loops.append(bi)
+    skipping = []
+    for nb in loops:
+        dest = es.blocks[nb]["term"]["dest"][0]
+        for sb, e, targets, otherwise in es.switch_edges():
+            if e[0] == "discr" and e[1][0] == "call" and len(e[1]) > 3 and e[1][3] == nb:
+                for v, tb in targets:
+                    if int(v) == 1 and nb in es.reachable(tb, cut_blocks=emit):
+                        skipping.append(nb)
+    ctx.check(bool(loops) and bool(emit) and not skipping, "C15-R5", "expand_shortcuts:every-rule-re-emitted",
+              "each iteration over a kept symbol's rules reaches add_rule_ext",
+              "expand_shortcuts can skip a rule of a kept symbol (an iteration of the rule loop returns to the iterator without add_rule_ext): "
+              "alternatives are lost — e.g. two alternatives with the same body and different %if conditions", site=es.where(skipping[0]) if skipping else es.where())
+
